@@ -1,5 +1,6 @@
 """C14 The extinction law is normalised at V, unit-free and zero outside its table."""
 import ast
+from fractions import Fraction
 
 from .. import alg, fitmodel as fm
 from ..alg import Poly, P, B, C, sym, mk_fn
@@ -59,15 +60,31 @@ def check_get_av(ctx):
     xw, chi, q = sym('xw', T), sym('chi', T), sym('qq', Q)
     num_ = mk_fn('interp', P(q), B(T, xw), B(T, chi), C('left=0'), C('right=0'))
     den = mk_fn('interp', P(Poly.const('0.55') * U), B(T, xw), B(T, chi))
-    from fractions import Fraction
     ref = Poly.const(Fraction(-2, 5)) * num_ / den
     # np.interp is compared in its expanded form (linear inside the table, the end values or left= / right= beyond it), so that holding zero outside through
     # left=0 / right=0 and through a mask applied afterwards are one normal form; np.interp takes an increasing table as its precondition
     ex = lambda p_: alg.expand_interp(p_, assume_sorted=True)
     ref_e = ex(ref)
     exd = lambda v_: v_.with_(poly=ex(v_.poly)) if isinstance(v_, Arr) else v_
-    okk = compare(ctx, 'ALG-9', 'get_av formula', loc(g), exd(out), ref_e, (Q,), vocab=VOCAB, fns=FNS | {'lininterp', 'at'}, findings=I.findings,
+    from ..roundtrip import TrialCtx
+    t = TrialCtx(ctx)
+    okk = compare(t, 'ALG-9', 'get_av formula', loc(g), exd(out), ref_e, (Q,), vocab=VOCAB, fns=FNS | {'lininterp', 'at'}, findings=I.findings,
                   detail_ok='-0.4 * interp(q; wav, chi; zero outside the table) / interp(0.55 micron; wav, chi)')
+    if t.n_undecided and not t.n_violations and get_av_by_regions(ctx, g, mk, 'get_av formula', sym('unit:cm')):
+        okk = not any(o.status == 'VIOLATION' and o.instance.startswith('get_av formula') for o in ctx.obs)
+    else:
+        t.commit()
+    # a single wavelength (not an array) is a request too
+    Is = Interp(repo)
+    outs = Is.call(g, [scalar(sym('qs'), sym('unit:cm'))], selfv=mk())
+    if isinstance(outs, Arr) and tuple(outs.dims) == (None,):
+        outs = outs.with_(dims=())          # one value, in an array of one element (the normalisation is looked up as an array of one wavelength)
+    refs = Poly.const(Fraction(-2, 5)) * mk_fn('interp', P(sym('qs')), B(T, xw), B(T, chi), C('left=0'), C('right=0')) / den
+    t = TrialCtx(ctx)
+    compare(t, 'ALG-9', 'get_av formula, one wavelength', loc(g), exd(outs), ex(refs), (), vocab=VOCAB | {'qs'}, fns=FNS | {'lininterp', 'at'}, findings=Is.findings,
+            detail_ok='the same term for a single wavelength')
+    if not (t.n_undecided and not t.n_violations and get_av_by_regions(ctx, g, mk, 'get_av formula, one wavelength', sym('unit:cm'), single=True)):
+        t.commit()
     if okk:
         ctx.ok('ALG-9', 'invariant under scaling of chi', loc(g), 'get_av(c*chi) == get_av(chi): opacity units and normalisation cancel (follows from the formula: degree 0 in chi)')
         ctx.ok('ALG-9', 'exactly -0.4 at 0.55 micron', loc(g), 'numerator and denominator are the same interpolation term at 0.55 micron (follows from the formula)')
@@ -80,7 +97,10 @@ def check_get_av(ctx):
     # another length unit is accepted and gives the same physical formula
     I3 = Interp(repo)
     o3 = I3.call(g, [symarr('qq', (Q,), unit=sym('unit:m'))], selfv=mk())
-    compare(ctx, 'ALG-9', 'query in another length unit', loc(g), exd(o3), ref_e, (Q,), vocab=VOCAB, fns=FNS | {'lininterp', 'at'}, findings=I3.findings, detail_ok='same term for a query given in metres')
+    t = TrialCtx(ctx)
+    compare(t, 'ALG-9', 'query in another length unit', loc(g), exd(o3), ref_e, (Q,), vocab=VOCAB, fns=FNS | {'lininterp', 'at'}, findings=I3.findings, detail_ok='same term for a query given in metres')
+    if not (t.n_undecided and not t.n_violations and get_av_by_regions(ctx, g, mk, 'query in another length unit', sym('unit:m'))):
+        t.commit()
 
     # ---- EFF-4: get_av depends on the current table only: anything it remembers on the object is invalidated by both setters
     from ..effects import Effects
@@ -115,6 +135,47 @@ def check_get_av(ctx):
             ctx.expect(not missing, 'EFF-4', 'cached %s is invalidated when the table changes' % attr, loc(g), 'both setters reset self.%s' % attr,
                        'get_av remembers self.%s but the %s setter does not reset it: after the table is changed get_av keeps using the old normalisation' % (attr, '/'.join(missing)), 'stale-cache')
 
+
+
+def get_av_by_regions(ctx, g, mk, inst, qunit, single=False):
+    """get_av decided on a table of three increasing wavelengths: the request below / on / between / above the knots, 0.55 micron on or between them;
+    in each combination the value is compared with -0.4 * L0(request) / L(0.55 micron), L the linear interpolant and L0 the same held at zero outside the
+    table (knots.py).  True when every combination was decided (the verdict is then recorded)."""
+    from .. import knots
+    repo = ctx.repo
+    n = 3
+    xw, chi = sym('xw', T), sym('chi', T)
+    v = Poly.const(Fraction(11, 20)) * sym('unit:micron')
+    I = Interp(repo)
+    I.axis_len[T] = n
+    I.exact_le = True          # a request may be a tabulated wavelength: <= and < are kept apart
+    q = sym('qs') if single else sym('qq', Q)
+    out = I.call(g, [scalar(q, qunit) if single else symarr('qq', (Q,), unit=qunit)], selfv=mk())
+    if not isinstance(out, Arr) or out.mask is not None or I.lost or I.findings or tuple(out.dims) not in (((), (None,)) if single else ((Q,),)):
+        return False
+
+    def L(kind, k, qq):
+        return Poly() if kind in ('below', 'above') else knots.linear_ref(kind, k, qq, xw, chi, T, n)
+    bad, ncomb = [], 0
+    for nq, kq, jq in knots.regions(n, below=True):
+        for nv, kv, jv in knots.regions(n)[:-1]:
+            Rg = knots.Region(None, xw, T, n, qlabel=Q, requests=[(q, kq, jq), (v, kv, jv)])
+            try:
+                got = Rg.simplify(out.poly)
+                qq = Rg.pts[jq] if kq == 'at' else q
+                ref = Rg.simplify(Poly.const(Fraction(-2, 5)) * L(kq, jq, qq) * L(kv, jv, v).pow(-1))
+            except (RecursionError, ZeroDivisionError):
+                return False
+            ncomb += 1
+            if knots.equal(got, ref):
+                continue
+            if not knots.closed_form(got):
+                return False
+            nan_ = 'NAN' in {str(a_[1]) for a_ in got.atoms() if a_[0] == 'sym'}
+            bad.append('request %s, 0.55 micron %s: gives %s where the definition gives %s' % (nq, nv, 'not-a-number' if nan_ else alg.show(got, 100), alg.show(ref, 100)))
+    ctx.expect(not bad, 'ALG-9', '%s, table of %d wavelengths, every position of the request and of 0.55 micron' % (inst, n), loc(g),
+               '%d combinations: -0.4 * (linear interpolant, zero outside the table) / (linear interpolant at 0.55 micron)' % ncomb, '; '.join(bad[:2]), 'get_av-regions')
+    return True
 
 
 def check_state(ctx):
@@ -166,6 +227,7 @@ def check_state(ctx):
 
 EX = 'sedfitter/extinction/extinction.py'
 MUST_FIRE = [
+    ('law looked up with the package\'s own interpolator: a single wavelength outside the table gets not-a-number, not zero', [(EX, '            return (-0.4 * np.interp(wav.to(self.wav.unit), self.wav, self.chi, left=0., right=0.)\n                    / np.interp(([0.55] * u.micron).to(self.wav.unit), self.wav, self.chi))\n', '            from ..utils.interpolate import interp1d_fast\n            xp = self.wav.value\n            fp = self.chi.value\n            x = wav.to(self.wav.unit).value\n            x_v = ([0.55] * u.micron).to(self.wav.unit).value\n            chi = interp1d_fast(xp, fp, x, bounds_error=False, fill_value=0.)\n            chi_v = interp1d_fast(xp, fp, x_v)\n            return u.Quantity(-0.4 * chi / chi_v, u.dimensionless_unscaled)\n')]),
     ('extinction state as bare numbers, default units re-attached without conversion', [(EX, "            'wav': self.wav,\n            'chi': self.chi,\n", "            'wav': self.wav.value,\n            'chi': self.chi.value,\n"), (EX, "        self.wav = d['wav']\n        self.chi = d['chi']", "        self.wav = d['wav'] * u.micron\n        self.chi = d['chi'] * u.cm ** 2 / u.g")]),
     ('-0.4 -> 0.4', [(EX, "return (-0.4 * np.interp(", "return (0.4 * np.interp(")]),
     ('0.55 -> 0.5', [(EX, "[0.55] * u.micron", "[0.5] * u.micron")]),
@@ -183,6 +245,7 @@ MUST_FIRE = [
     ('setstate cross-wired', [(EX, "        self.wav = d['wav']\n        self.chi = d['chi']", "        self.wav = d['chi']\n        self.chi = d['wav']")]),
 ]
 MUST_SILENT = [
+    ('law looked up with the package\'s own interpolator, a single wavelength made an array of one first', [(EX, '            return (-0.4 * np.interp(wav.to(self.wav.unit), self.wav, self.chi, left=0., right=0.)\n                    / np.interp(([0.55] * u.micron).to(self.wav.unit), self.wav, self.chi))\n', '            from ..utils.interpolate import interp1d_fast\n            xp = self.wav.value\n            fp = self.chi.value\n            x = np.atleast_1d(wav.to(self.wav.unit).value)\n            x_v = ([0.55] * u.micron).to(self.wav.unit).value\n            chi = interp1d_fast(xp, fp, x, bounds_error=False, fill_value=0.)\n            chi_v = interp1d_fast(xp, fp, x_v)\n            return u.Quantity(-0.4 * chi / chi_v, u.dimensionless_unscaled)\n')]),
     ('extinction state as bare numbers in fixed units, converted when saved', [(EX, "            'wav': self.wav,\n            'chi': self.chi,\n", "            'wav': self.wav.to(u.micron).value,\n            'chi': self.chi.to(u.cm ** 2 / u.g).value,\n"), (EX, "        self.wav = d['wav']\n        self.chi = d['chi']", "        self.wav = d['wav'] * u.micron\n        self.chi = d['chi'] * u.cm ** 2 / u.g")]),
     ('constant folded', [(EX, "return (-0.4 * np.interp(", "return (-2. / 5. * np.interp(")]),
     ('temporaries', [(EX, "            return (-0.4 * np.interp(wav.to(self.wav.unit), self.wav, self.chi, left=0., right=0.)\n                    / np.interp(([0.55] * u.micron).to(self.wav.unit), self.wav, self.chi))",
